@@ -33,6 +33,7 @@ def run(ctx):
     chk, fb = ctx.check, ctx.fb
     chk.rule("R09.1", "validate all indices (clone of the iterator, `?`, bound = #variables) in a loop whose exit edge dominates the differentiation loop; check Ok => idx < n")
     chk.rule("R09.2", "the six public Differentiate methods reach the differentiation step only through partial_iter_relaxed")
+    chk.rule("R09.4", "partial(i) = partial_nth(i, 1); partial_nth(i, n) = partial_iter(repeat(i).take(n)); partial_iter(s) = partial_iter_relaxed(s, Error) - and the same for the _relaxed variants")
     chk.rule("R09.3", "every Ok return of the inner derivative is var_names_union(result, original).0")
     sig = {s["path"]: s for s in fb.raw["sigs"]}
     steps = [p for p, s in sig.items() if len(s["inputs"]) == 3 and s["inputs"][0] == "usize" and "DeepEx<" in s["inputs"][1]
@@ -198,3 +199,33 @@ def run(ctx):
             else:
                 chk.violation("R09.3", "var-list:%d" % nok, "an Ok return of the inner derivative does not restore the antiderivative's variable list: returns %s" % term[:160], loc(st["span"]))
     chk.floor("R09.3", "Ok returns of the inner derivative", nok, 2)
+
+    # ---- R09.4 delegation chain as terms
+    from analysis.interp import Interp, Policy, Sym, show
+
+    class P(Policy):
+        pass
+    T = "expression::partial::Differentiate::"
+    ERR = r"MissingOpMode::Error"
+    REP = r"std::iter::Iterator::take\(std::iter::repeat\(i\), n\)"
+    want = {
+        "partial": (["self_", "i"], r"^%spartial_nth\(self_, i, 1_usize\)$" % T),
+        "partial_relaxed": (["self_", "i", "m"], r"^%spartial_nth_relaxed\(self_, i, 1_usize, m\)$" % T),
+        "partial_nth": (["self_", "i", "n"], r"^%spartial_iter\(self_, %s\)$" % (T, REP)),
+        "partial_nth_relaxed": (["self_", "i", "n", "m"], r"^%spartial_iter_relaxed\(self_, %s, m\)$" % (T, REP)),
+        "partial_iter": (["self_", "s"], r"^%spartial_iter_relaxed\(self_, s, %s\)$" % (T, ERR)),
+    }
+    nd = 0
+    for name, (args, pat) in want.items():
+        bs = fb.find_bodies(lambda x, name=name: x.get("trait_default_of", "").endswith("partial::Differentiate") and x.get("name") == name)
+        if len(bs) != 1:
+            chk.violation("R09.4", "anchor:%s" % name, "Differentiate::%s not found" % name)
+            continue
+        ps = [p for p in Interp(fb, P()).run(bs[0], [Sym(a) for a in args]) if p.status != "unreachable"]
+        s_ = show(ps[0].result) if len(ps) == 1 and ps[0].status == "return" else "%d paths" % len(ps)
+        nd += 1
+        if re.match(pat, s_):
+            chk.ok("R09.4", "%s delegates as documented" % name, s_[:100], loc(bs[0]["span"]))
+        else:
+            chk.violation("R09.4", "delegation:%s" % name, "Differentiate::%s computes %s" % (name, s_[:160]), loc(bs[0]["span"]))
+    chk.floor("R09.4", "delegating methods", nd, 5)
